@@ -26,7 +26,7 @@ func (c *Ctx) wireObs(sel func(pkgRel, typ string) bool) []core.Ob {
 
 func init() {
 	Props["C06"] = PropDef{
-		Explanation: "R-WIRESYM: for every net/packet field type with both WriteTo and ReadFrom the sequence of wire elements written (nested field kinds inlined down to Raw(n) byte widths) equals the sequence read, on every non-error path. R-DISCARD: no result of a pure reflect.Value call or of append is dropped (the destination re-slice must be assigned). R-COUNT: returned byte counts accumulate every sub-count. R-ORDER: Tuple/Marshal/Scan/Builder iterate their fields front to back. Not decided: value equality, Position bit packing, float bit patterns.",
+		Explanation: "R-WIRESYM wire-signature symmetry; R-DISCARD; R-TLG; R-RAWREAD; R-ERRFLOW (E1-E4, deferred completion); R-POOL; T-VARLEN; T-BITFIELD; R-LENPREFIX; R-COUNT counting wrapper; T-BITSETSIZE; R-NOBUF. Decided: For every net/packet field type the writer's and reader's wire signatures agree on every non-error path; length prefixes are the byte length of what follows; packed words keep their fields disjoint; byte counts include every consuming method of the counting reader; FixedBitSet allocates exactly the bytes its accessors address; errors are not swallowed. Value equality is not decided.",
 		Run: func(c *Ctx) []core.Ob {
 			obs := c.wireObs(func(p, t string) bool { return p == "net/packet" })
 			for _, o := range c.Discard() {
@@ -55,7 +55,7 @@ func init() {
 		},
 	}
 	Props["C12"] = PropDef{
-		Explanation: "R-WIRESYM for PaletteContainer, the four palettes and BitStorage (reader and writer agree on [bits byte, palette, data array]); R-TLG for palette/data sizes read from the wire. Not decided: array semantics across palette upgrades, bits bookkeeping.",
+		Explanation: "R-WIRESYM; R-TLG; T-PALCFG decision partitions, width bounds, recorded width; R-ORDER palette-read fresh palette, resize copies every position; T-BSINV. Decided: Reader and writer agree on [bits byte, palette, data array]; create/WithData/bits choose by the same classes and widths within bounds; ReadFrom never refills a used palette; the resize copies every position unconditionally and records the created width. Array semantics across upgrades are not decided.",
 		Run: func(c *Ctx) []core.Ob {
 			// the palette kinds: whatever types of the package implement the interface of the container's palette slot
 			names := map[string]bool{"PaletteContainer": true, "BitStorage": true}
@@ -92,7 +92,7 @@ func init() {
 		},
 	}
 	Props["C13"] = PropDef{
-		Explanation: "R-WIRESYM for Chunk, Section, BlockEntity, lightData, ChunkPos: the network writer and reader list the same wire kinds in the same order at every level. R-PANIC(G): height maps from the wire are length-checked before NewBitStorage. R-ORDER: SetBlock reads the old state before storing the new one and updates BlockCount by one conditional decrement (old not air) and one conditional increment (new not air). R-NOALIAS: in the save<->network conversions a decode target that outlives a loop iteration is not copied out inside the loop (nbt.RawMessage re-uses its buffer). Not decided: value preservation, registry bijection, light arrays.",
+		Explanation: "R-WIRESYM; R-PANIC guarded-call; R-ORDER SetBlock counter; T-HEIGHTMAP save and network; R-NOALIAS loop decode targets; R-INITORDER; T-BITFIELD; T-BSINV. Decided: Network writer and reader of a chunk list the same wire kinds in order; height maps are length-checked and each is built from its own source; decode targets are not shared across loop iterations; no initialiser reads a registry map before init() fills it. Value preservation and the registry bijection are not decided.",
 		Run: func(c *Ctx) []core.Ob {
 			names := map[string]bool{"Chunk": true, "Section": true, "BlockEntity": true, "lightData": true, "ChunkPos": true}
 			obs := c.wireObs(func(p, t string) bool { return p == "level" && names[t] })
@@ -114,7 +114,7 @@ func init() {
 		},
 	}
 	Props["C17"] = PropDef{
-		Explanation: "R-WIRESYM for chat.Type, chat.Message, chat.JsonMessage (packet-field adapters agree; the chat-type header reader does not manufacture an error). Not decided: equality after a round trip, rendering.",
+		Explanation: "R-WIRESYM; R-MARSHALER; T-DISPATCH; T-ARGKIND; T-OPTFLAG; T-FIELDCOVER; T-TAGS; T-SIGNED; R-GUARD string indexes and len-k bounds; R-TRUNC. Decided: Chat packet-field adapters are symmetric; the optional target is announced exactly when present; a short form looks at every other field; converted struct variants share keys; array arguments are signed; rendering indexes strings only behind length tests. Equality after a round trip and rendering output are not decided.",
 		Run: func(c *Ctx) []core.Ob {
 			obs := c.wireObs(func(p, t string) bool { return p == "chat" })
 			obs = append(obs, filterObs(c.MarshalerContract(), func(o core.Ob) bool { return strings.HasPrefix(o.Key, "chat") })...)
@@ -133,7 +133,7 @@ func init() {
 		},
 	}
 	Props["C19"] = PropDef{
-		Explanation: "R-SCHEMA: for every gate packet id for which the bot and the server hold a sender (pk.Marshal site) and a receiver (Packet.Scan or a bytes.NewReader(p.Data) read chain control-dependent on the same packet-id constant), the receiver scans a prefix of what the sender marshals. R-WIRESYM for the login-success property list and data-pack types. R-ORDER: handler tables are kept with a stable sort and a strict descending Priority comparator; handlePacket runs generic before id-specific handlers and stops on the first error; the server writes the set-compression packet immediately before SetThreshold; the offline-mode UUID comes from offline.NameToUUID on every path. Not decided: that a join completes, queue behaviour, play-state payloads.",
+		Explanation: "R-SCHEMA; R-ORDER (stable sort, dispatch order and its callers, compression switch on both ends, offline UUID origin, drain-before-close); R-POOL; R-LENPREFIX; R-ERRFLOW. Decided: For each gate packet the receiver scans a prefix of what the sender marshals; both ends switch compression at the same frame for every threshold value; dispatch stops at the first error in every caller; queued packets survive Close; packet buffers are not recycled under a queued packet; string lengths are byte lengths. One known finding (registry-data layout). Join completion is not decided.",
 		Run: func(c *Ctx) []core.Ob {
 			obs := c.Schema()
 			obs = append(obs, c.HandlerSort()...)
@@ -143,7 +143,9 @@ func init() {
 			obs = append(obs, c.ReceiveBufferPerPacket()...)
 			obs = append(obs, c.Pools("net/packet")...)
 			obs = append(obs, c.DrainBeforeClose("net/queue")...)
-			obs = append(obs, filterObs(c.LengthPrefixes("net/packet"), func(o core.Ob) bool { return strings.Contains(o.Key, "(String)") || strings.Contains(o.Key, "(Identifier)") })...)
+			obs = append(obs, filterObs(c.LengthPrefixes("net/packet"), func(o core.Ob) bool {
+				return strings.Contains(o.Key, "(String)") || strings.Contains(o.Key, "(Identifier)")
+			})...)
 			gate := pkgPred("server", "server/auth", "bot")
 			gateArmed := pkgPred("server", "server/auth")
 			obs = append(obs, c.ErrFlow(gate, gateArmed)...)
@@ -152,7 +154,7 @@ func init() {
 		},
 	}
 	Props["C20"] = PropDef{
-		Explanation: "R-LOCK on the confirmed guarded-by instances (LinkedListQueue{queue,closed|cond.L}, PlayerList{players|playersLock}): guarded-by on every access, release on every exit incl. panics, Cond.Wait in a loop with the lock held, Signal/Broadcast after every state change before Unlock (Broadcast for the terminal flag), check-then-act in one critical section, non-blocking bounded Push; lock pairing for every other mutex-holding method. R-POOL on net/packet, nbt, nbt/dynbt, level: pooled objects are Reset before use, Put on all exits, nothing aliasing them escapes; no package-level map/slice is written outside init. Not decided: linearizability / exactly-once FIFO over interleavings, data races in general.",
+		Explanation: "R-LOCK must-held / pairing / notify dataflow; R-POOL typestate and alias escape; R-ORDER drain-before-close; R-NOMUT cached values. Decided: Guarded-by, release on all exits, wait-in-loop, signal-after-write, broadcast-on-close, atomic check-then-act, non-blocking bounded push, drain before honouring close, pooled objects reset/put/non-escaping, process-wide caches immutable after construction. Linearizability and general race freedom are not decided.",
 		Run: func(c *Ctx) []core.Ob {
 			obs := c.Locks()
 			obs = append(obs, c.Pools("net/packet", "nbt", "nbt/dynbt", "level")...)
